@@ -76,9 +76,9 @@ func genSpec(r *rand.Rand, name string) *h.Spec {
 		is.BlockPromote = r.IntN(2) == 0
 		s.Insts = append(s.Insts, is)
 	}
-	s.Lat = h.Latency{Min: 0, Max: time.Duration(r.IntN(3)) * ms}
+	s.Lat = h.Latency{Min: 0, Max: time.Duration(r.IntN(5)) * ms}
 	s.Watch = h.WatchPolicy{DelayMax: time.Duration(r.IntN(5)) * ms, DupP: 0.1}
-	if r.IntN(3) == 0 {
+	if r.IntN(2) == 0 {
 		// slow store windows: calls that take longer than a stop call is prepared to wait,
 		// so that background goroutines of one run are still in flight when the next begins
 		for w, n := 0, 2+r.IntN(4); w < n; w++ {
@@ -210,7 +210,9 @@ func runScenario(t *testing.T, r *rand.Rand, res *h.Result) {
 					return
 				default:
 				}
-				ctx, cancel := context.WithTimeout(context.Background(), 20*ms)
+				// deadlines around the store's latency: some validations give up while their read
+				// is still in flight, and the answer arrives afterwards
+				ctx, cancel := context.WithTimeout(context.Background(), []time.Duration{500 * time.Microsecond, 2 * ms, 5 * ms, 20 * ms}[rs.IntN(4)])
 				if rs.IntN(4) == 0 {
 					el.ValidateTokenOrDemote(ctx)
 					cnt.inc("ValidateTokenOrDemote")
